@@ -16,6 +16,8 @@ use lattices::set_union::{SetUnion, SetUnionHashSet, SetUnionSingletonSet};
 use lattices::set_union_with_tombstones::SetUnionWithTombstones;
 use lattices::tombstone::{FstTombstoneSet, RoaringTombstoneSet, TombstoneSet};
 use lattices::{IsBot, Merge};
+#[allow(unused_imports)]
+use std::cmp::PartialOrd;
 
 // ---------------------------------------------------------------------------------------------
 // key codecs: abstract key 0..11 -> backend key
@@ -59,7 +61,56 @@ impl Key for String {
 /// What one replica reveals: (pairs, map keys, tombstones), all decoded and sorted.
 type Reveal = (Vec<(i64, i64)>, Vec<i64>, Vec<i64>);
 
+fn tri(b: bool) -> i64 {
+    b as i64
+}
+fn ordname(o: Option<std::cmp::Ordering>) -> &'static str {
+    match o {
+        Some(std::cmp::Ordering::Less) => "lt",
+        Some(std::cmp::Ordering::Equal) => "eq",
+        Some(std::cmp::Ordering::Greater) => "gt",
+        None => "none",
+    }
+}
+
+/// The type's own `==` / `partial_cmp`, where the tombstone backend offers them (only the
+/// HashSet backend implements the collection traits they need); -1 / "na" otherwise.
+trait Own<K: Key>: Sized {
+    fn set_eq(_a: &SetUnionWithTombstones<HashSet<K>, Self>, _b: &SetUnionWithTombstones<HashSet<K>, Self>) -> i64 {
+        -1
+    }
+    fn set_cmp(_a: &SetUnionWithTombstones<HashSet<K>, Self>, _b: &SetUnionWithTombstones<HashSet<K>, Self>) -> &'static str {
+        "na"
+    }
+    fn map_eq(_a: &MapUnionWithTombstones<HashMap<K, Val>, Self>, _b: &MapUnionWithTombstones<HashMap<K, Val>, Self>) -> i64 {
+        -1
+    }
+    fn map_cmp(_a: &MapUnionWithTombstones<HashMap<K, Val>, Self>, _b: &MapUnionWithTombstones<HashMap<K, Val>, Self>) -> &'static str {
+        "na"
+    }
+}
+impl<K: Key> Own<K> for HashSet<K> {
+    fn set_eq(a: &SetUnionWithTombstones<HashSet<K>, Self>, b: &SetUnionWithTombstones<HashSet<K>, Self>) -> i64 {
+        tri(a == b)
+    }
+    fn set_cmp(a: &SetUnionWithTombstones<HashSet<K>, Self>, b: &SetUnionWithTombstones<HashSet<K>, Self>) -> &'static str {
+        ordname(a.partial_cmp(b))
+    }
+    fn map_eq(a: &MapUnionWithTombstones<HashMap<K, Val>, Self>, b: &MapUnionWithTombstones<HashMap<K, Val>, Self>) -> i64 {
+        tri(a == b)
+    }
+    fn map_cmp(a: &MapUnionWithTombstones<HashMap<K, Val>, Self>, b: &MapUnionWithTombstones<HashMap<K, Val>, Self>) -> &'static str {
+        ordname(a.partial_cmp(b))
+    }
+}
+impl Own<u64> for RoaringTombstoneSet {}
+impl Own<String> for FstTombstoneSet<String> {}
+
 trait Replica: Clone {
+    fn own_eq(&self, other: &Self) -> i64;
+    fn own_cmp(&self, other: &Self) -> &'static str;
+    fn own_is_bot(&self) -> i64;
+    fn default_is_bot() -> i64;
     fn load(live: &[(u8, u8)], tomb: &[u8]) -> Self;
     fn ins(&mut self, k: u8, v: u8) -> bool;
     fn insbot(&mut self, k: u8) -> bool;
@@ -75,8 +126,20 @@ struct SetRep<K, T>(SetUnionWithTombstones<HashSet<K>, T>);
 impl<K, T> Replica for SetRep<K, T>
 where
     K: Key,
-    T: TombstoneSet<K> + Clone + IntoIterator<Item = K> + FromIterator<K>,
+    T: TombstoneSet<K> + Clone + IntoIterator<Item = K> + FromIterator<K> + Default + Own<K>,
 {
+    fn own_eq(&self, other: &Self) -> i64 {
+        T::set_eq(&self.0, &other.0)
+    }
+    fn own_cmp(&self, other: &Self) -> &'static str {
+        T::set_cmp(&self.0, &other.0)
+    }
+    fn own_is_bot(&self) -> i64 {
+        tri(self.0.is_bot())
+    }
+    fn default_is_bot() -> i64 {
+        tri(SetUnionWithTombstones::<HashSet<K>, T>::default().is_bot())
+    }
     fn load(live: &[(u8, u8)], tomb: &[u8]) -> Self {
         SetRep(SetUnionWithTombstones::new(
             live.iter().map(|&(k, _)| K::enc(k)).collect(),
@@ -118,8 +181,20 @@ struct MapRep<K, T>(MapUnionWithTombstones<HashMap<K, Val>, T>);
 impl<K, T> Replica for MapRep<K, T>
 where
     K: Key,
-    T: TombstoneSet<K> + Clone + IntoIterator<Item = K> + FromIterator<K>,
+    T: TombstoneSet<K> + Clone + IntoIterator<Item = K> + FromIterator<K> + Default + Own<K>,
 {
+    fn own_eq(&self, other: &Self) -> i64 {
+        T::map_eq(&self.0, &other.0)
+    }
+    fn own_cmp(&self, other: &Self) -> &'static str {
+        T::map_cmp(&self.0, &other.0)
+    }
+    fn own_is_bot(&self) -> i64 {
+        tri(self.0.is_bot())
+    }
+    fn default_is_bot() -> i64 {
+        tri(MapUnionWithTombstones::<HashMap<K, Val>, T>::default().is_bot())
+    }
     fn load(live: &[(u8, u8)], tomb: &[u8]) -> Self {
         let mut m: HashMap<K, Val> = HashMap::new();
         for &(k, v) in live {
@@ -182,11 +257,24 @@ enum Op {
     InsBot { r: usize, k: u8 },
     Del { r: usize, k: u8 },
     Merge { r: usize, s: usize },
+    /// ACI laws of merge on three explicit values
+    Law { a: AVal, b: AVal, c: AVal },
+    /// order operations on two explicit values
+    Ord { a: AVal, b: AVal },
+}
+/// an explicit abstract value: (live pairs, tombstoned keys)
+type AVal = (Vec<(u8, u8)>, Vec<u8>);
+fn aval_json(v: &AVal) -> Value {
+    json!({"live": v.0, "tomb": v.1})
+}
+fn reveal_json(r: Reveal) -> Value {
+    json!({"live": r.0, "tomb": r.2})
 }
 impl Op {
     fn r(&self) -> usize {
         match self {
             Op::Load { r, .. } | Op::Ins { r, .. } | Op::InsBot { r, .. } | Op::Del { r, .. } | Op::Merge { r, .. } => *r,
+            Op::Law { .. } | Op::Ord { .. } => 1,
         }
     }
     fn event(&self) -> Value {
@@ -196,6 +284,8 @@ impl Op {
             Op::InsBot { r, k } => json!({"e":"insbot","r":r,"k":k}),
             Op::Del { r, k } => json!({"e":"del","r":r,"k":k}),
             Op::Merge { r, s } => json!({"e":"merge","r":r,"s":s}),
+            Op::Law { a, b, c } => json!({"e":"law","a":aval_json(a),"b":aval_json(b),"c":aval_json(c)}),
+            Op::Ord { a, b } => json!({"e":"ord","a":aval_json(a),"b":aval_json(b)}),
         }
     }
 }
@@ -209,6 +299,34 @@ impl<R: Replica> Backend for Reps<R> {
         self.name
     }
     fn apply(&mut self, op: &Op) -> Value {
+        let name = self.name;
+        if let Op::Law { a, b, c } = op {
+            let res = hv_common::catch(|| {
+                let mk = |v: &AVal| R::load(&v.0, &v.1);
+                let join = |x: &R, y: &R| {
+                    let mut z = x.clone();
+                    z.merge_from(y);
+                    z
+                };
+                let (ra, rb, rc) = (mk(a), mk(b), mk(c));
+                let (ab, ba, aa) = (join(&ra, &rb), join(&rb, &ra), join(&ra, &ra));
+                let (abc1, abc2) = (join(&ab, &rc), join(&ra, &join(&rb, &rc)));
+                json!({"b":name,"panic":false,"ab":reveal_json(ab.reveal()),"ba":reveal_json(ba.reveal()),
+                    "aa":reveal_json(aa.reveal()),"abc1":reveal_json(abc1.reveal()),"abc2":reveal_json(abc2.reveal()),
+                    "eqc":ab.own_eq(&ba),"eqi":aa.own_eq(&ra),"eqa":abc1.own_eq(&abc2)})
+            });
+            return res.unwrap_or_else(|msg| json!({"b":name,"panic":true,"msg":msg}));
+        }
+        if let Op::Ord { a, b } = op {
+            let res = hv_common::catch(|| {
+                let (ra, rb) = (R::load(&a.0, &a.1), R::load(&b.0, &b.1));
+                let mut into_b = rb.clone();
+                let ch = into_b.merge_from(&ra);
+                json!({"b":name,"panic":false,"cmp":ra.own_cmp(&rb),"eq":ra.own_eq(&rb),"bota":ra.own_is_bot(),
+                    "botb":rb.own_is_bot(),"defbot":R::default_is_bot(),"ch":ch})
+            });
+            return res.unwrap_or_else(|msg| json!({"b":name,"panic":true,"msg":msg}));
+        }
         let reps = &mut self.reps;
         let res = hv_common::catch(move || {
             let ch = match op {
@@ -223,6 +341,7 @@ impl<R: Replica> Backend for Reps<R> {
                     let other = reps[s - 1].clone();
                     reps[r - 1].merge_from(&other)
                 }
+                Op::Law { .. } | Op::Ord { .. } => unreachable!(),
             };
             (ch, reps[op.r() - 1].reveal())
         });
@@ -270,7 +389,15 @@ fn run_case(id: usize, variant: &str, n: usize, ops: &[Op], tr: &mut Trace) -> V
     all
 }
 
+fn parse_aval(v: &Value) -> AVal {
+    (serde_json::from_value(v["live"].clone()).unwrap(), serde_json::from_value(v["tomb"].clone()).unwrap())
+}
 fn parse_op(o: &Value) -> Op {
+    match o["op"].as_str().unwrap() {
+        "law" => return Op::Law { a: parse_aval(&o["a"]), b: parse_aval(&o["b"]), c: parse_aval(&o["c"]) },
+        "ord" => return Op::Ord { a: parse_aval(&o["a"]), b: parse_aval(&o["b"]) },
+        _ => {}
+    }
     let r = o["r"].as_u64().unwrap() as usize;
     let k = o["k"].as_u64().unwrap_or(0) as u8;
     match o["op"].as_str().unwrap() {
